@@ -258,6 +258,20 @@ impl<'a> Job for BuildJob<'a> {
             if (self.flavour == 1) != case.shape.aux.is_some() {
                 continue;
             }
+            // a base must not be degenerate: a (nearly) constant trace gives a proof whose
+            // content does not depend on the challenges and whose Merkle leaves are all equal,
+            // so that many different byte strings are *correct* proofs of the same statement
+            let n = case.shape.len();
+            let lively = case.shape.rules.iter().any(|r| {
+                let c = r.col();
+                let mut vals: Vec<_> = case.rows.iter().map(|row| to_u128(row[c])).collect();
+                vals.sort_unstable();
+                vals.dedup();
+                vals.len() >= n / 2
+            });
+            if !lively {
+                continue;
+            }
             // small, fixed-size options so that enumeration stays affordable
             let o = &case.options;
             let q = [2usize, 3, 4, 6][self.ch.index("base.q", 4)].min(case.shape.len() * o.blowup_factor() - 1);
